@@ -242,7 +242,9 @@ class Run:
         self.notes = []
         self.fresh_n = 0
         self.solver = z3.Solver()
-        self.solver.set('timeout', timeout_ms)
+        # deterministic budget (rlimit) for path-feasibility checks; the wall-clock timeout is a safety net only
+        self.solver.set('rlimit', int(timeout_ms) * 4000)
+        self.solver.set('timeout', max(int(timeout_ms) * 20, 30000))
         self._nlits = 0
         self.calls = 0
         self.bounded = 0               # >0: bounded model-query mode (loops unrolled, collection sizes <= bounded)
@@ -1516,12 +1518,18 @@ def explore(entry, max_paths=4000, timeout_ms=1500, deadline_s=None):
 
 
 # ------------------------------------------------------------------------------------------ discharge
-def discharge(run, formula, npc=None, nax=None, timeout_ms=10000, extra=()):
+def discharge(run, formula, npc=None, nax=None, timeout_ms=10000, extra=(), rlimit=None):
     """Check pc[:npc] & axioms[:nax] |= formula.  Returns (verdict, model_or_reason, seconds).
-    verdict: 'unsat' (proved) | 'sat' | 'unknown'."""
+    verdict: 'unsat' (proved) | 'sat' | 'unknown'.
+
+    The budget is z3's deterministic resource limit (`rlimit`, derived from timeout_ms when not given), so verdicts do
+    not flip when the machine is busy; the wall-clock timeout is only a generous safety net."""
     t0 = time.time()
     s = z3.Solver()
-    s.set('timeout', timeout_ms)
+    if rlimit is None:
+        rlimit = int(timeout_ms) * 2500
+    s.set('rlimit', rlimit)
+    s.set('timeout', max(int(timeout_ms) * 15, 120000))
     pcs = run.pc if npc is None else run.pc[:npc]
     axs = run.axioms if nax is None else run.axioms[:nax]
     for c in pcs:
